@@ -12,7 +12,7 @@
 import vlib
 
 
-INSTANCES = ["core", "fetch", "seldata", "auth1", "auth2", "idle", "state"]
+INSTANCES = ["core", "fetch", "seldata", "auth1", "auth2", "idle", "state", "lit"]
 
 
 def run(ctx):
